@@ -82,9 +82,46 @@ def available_codes():
     return old, new
 
 
+def histories(run: Run, scratch):
+    """GeneticCodeHistory.tla: every maximal history in its own pristine forked child."""
+    import numpy
+
+    import history_C12 as H
+
+    cfg = f"MC_GeneticCode_history_{run.tier}.cfg"
+    emit = scratch / "history.ndjson"
+    res = run_tlc("GeneticCodeHistory", cfg, scratch, workers=WORKERS, env={"EMIT_FILE": emit})
+    run.add_tlc(res)
+    recs = list(read_emitted(emit))
+    if len(recs) != res.distinct - 1:
+        raise RuntimeError(f"history: emitted {len(recs)} records for {res.distinct} states")
+    max_hist = max(len(r["hist"]) for r in recs) + 1
+    todo = H.paths(recs, max_hist)
+    # The parent imports the library and compiles the k-mer kernel through the alphabet (no molecular type,
+    # sequence or genetic code is asked anything), so every child starts from a process where nothing was asked.
+    api = E.Api.get()
+    api.ngc(1).codons.to_indices(numpy.array([0, 1, 2, 3, 0, 1], dtype=numpy.uint8))
+    t0 = time.time()
+    nobs = 0
+    ctx = mp.get_context("fork")
+    with ctx.Pool(WORKERS, initializer=_init_worker, maxtasksperchild=1) as pool:
+        for n, fails in pool.imap_unordered(H.run_history, todo, chunksize=1):
+            nobs += n
+            for key, detail, what in fails:
+                run.fail(key, detail, what=what)
+    run.note(f"tlc_{cfg}", {"distinct": res.distinct, "generated": res.generated, "wall_s": round(res.wall, 1)})
+    run.note("histories", {"questions": len({H.qkey(r["q"]) for r in recs}), "length": max_hist, "histories_replayed_each_in_a_pristine_process": len(todo), "observations": nobs, "wall_s": round(time.time() - t0, 1)})
+    if todo:
+        run.sample({"history": [{"op": q["op"], "mt": q["mt"], "s": "".join(q["s"]), "set": q["set"], "expected": H.expected(q, a)} for q, a in todo[len(todo) // 2]]}, limit=9)
+    return len(recs), nobs
+
+
 def check(run: Run):
     tier = TIERS[run.tier]
     rng = random.Random(run.seed)
+    with Scratch("C12h") as hscratch:
+        # first, while this process has not asked the library anything
+        hist_cases, hist_obs = histories(run, hscratch)
     items = []
     counts = {}
     table_codes = set()
@@ -190,6 +227,8 @@ def check(run: Run):
     run.cov["traces_validated_against_impl"] = sum(
         len(r) if layer == "L3G" else (0 if layer in ("L2", "L2L") and id(r) in l1 else 1) for layer, r in items
     )
+    run.cov["traces_validated_against_impl"] += hist_cases
+    total += hist_obs
     run.cov["evaluations"] = total
     run.cov["distinct_nontrivial"] = len(recs) - sum(1 for r in recs if r["act"] in ("Frames", "GetTranslation", "StopOps") and len(r["seq"]) < 3)
     run.cov["exhaustive"] = skipped == 0
@@ -235,6 +274,7 @@ def check(run: Run):
         "a trailing incomplete codon with trim_stop and not incomplete_ok may be refused or dropped (the statement leaves it open)",
         "'-' and '?' are checked for complement / rc / degeneracy only (their resolution depends on allow_gap); protein X is not checked (alphabet-dependent), B and Z are",
         "long family (lengths around 2^8 codons in quick; 2^8 / 2^16 bases and codons, 300 and 1000 codons in thorough): the sequence is generated and its six expected proteins are computed by TLC with the same per-codon Translate of the spec (emitted by a single-worker TLC run, lines exceed the atomic write size); strings above 4000 bases skip the old-style sequence / collection objects",
+        "histories (GeneticCodeHistory.tla): each maximal sequence of questions is replayed in its own child forked from a parent that has only imported cogent3 and compiled the k-mer kernel through the alphabet; the degenerate codons used have amino-acid sets that are neither a single residue nor Asx/Glx, where old ('symbol of the set') and new ('X') conventions coincide",
         "best_frame / select_translatable ORF heuristics are not covered",
     ]
 
